@@ -1,10 +1,11 @@
 #!/bin/sh
-# usage: confirm_seed.sh <seed-name> <dir-with-patch.diff-and-demo> <demo-target-pkg-dir> [test packages...]
+# usage: [MODDIR=<module dir relative to repo root>] confirm_seed.sh <seed-name> <dir-with-patch.diff-and-demo> <demo-target-pkg-dir relative to the module> [test packages...]
 # Confirms in a scratch worktree: the change compiles, the existing tests pass, the demo fails
 # with the change and passes without it. Stores the seed under /verif/seeded/<seed-name>/.
 set -u
 name=$1; src=$2; pkgdir=$3; shift 3
 pkgs=${*:-./block/... ./types/...}
+moddir=${MODDIR:-.}
 wt=/tmp/wt_confirm_$name
 export GOFLAGS=-mod=mod GOPROXY=off
 git -C /repo worktree add -q --detach $wt HEAD || exit 2
@@ -13,12 +14,15 @@ demo=$(ls $src/*_test.go | head -1)
 res=/tmp/confirm_$name.txt
 : > $res
 git apply $src/patch.diff || { echo "patch does not apply" | tee -a $res; }
+cd $wt/$moddir
 ( go build ./... && echo "BUILD ok" || echo "BUILD FAILED" ) 2>&1 | tail -3 | tee -a $res
 ( go test -vet=off -count=1 $pkgs 2>&1 | grep -v "no test files" | tail -15 ) | tee -a $res
 cp $demo $pkgdir/zz_seed_demo_test.go
 echo "--- demo WITH change (must fail):" | tee -a $res
 ( go test -vet=off -count=1 -run 'Seed|ZZSeed' ./$pkgdir 2>&1 | tail -6 ) | tee -a $res
-git checkout -q -- . 
+rm -f $pkgdir/zz_seed_demo_test.go
+cd $wt && git checkout -q -- . && cd $wt/$moddir
+cp $demo $pkgdir/zz_seed_demo_test.go
 echo "--- demo WITHOUT change (must pass):" | tee -a $res
 ( go test -vet=off -count=1 -run 'Seed|ZZSeed' ./$pkgdir 2>&1 | tail -4 ) | tee -a $res
 cd /; git -C /repo worktree remove --force $wt
